@@ -813,7 +813,7 @@ func (g *c09sGen) emitFunc(f *c09sFunc) {
 	vars := append([]c09sVar{}, f.params...)
 	g.showVars(1, f.name, f.params)
 	if f.vari >= 0 {
-		g.line(1, "fmt.Println(\"%s.xs\", len(xs))", f.name)
+		g.line(1, "fmt.Println(\"%s.xs\", len(xs), xs == nil)", f.name)
 		switch f.vari {
 		case c09sInt:
 			g.line(1, "showV(\"%s.xs\", xs)", f.name)
@@ -1012,8 +1012,13 @@ func showS(l string, s []int) {
 	fmt.Println(l, len(s), c)
 }
 
-// showV does not distinguish nil from empty (see section variadic-zero-nil)
+// showV shows a variadic parameter: nil (no surplus argument, or a nil slice spread) is told apart
+// from an empty non-nil slice (see also section variadic-zero-nil)
 func showV(l string, s []int) {
+	if s == nil {
+		fmt.Println(l, "nil-slice")
+		return
+	}
 	c := 0
 	for i := 0; i < int(len(s)); i++ {
 		c = c*31 + s[i]
